@@ -258,6 +258,12 @@ func (m stateMachine) Depth() int {
 	return len(m.Stack) + 1
 }
 
+// AtMaxDepth reports whether no further JSON object or array may be begun
+// because the maximum nesting depth is reached.
+func (m stateMachine) AtMaxDepth() bool {
+	return len(m.Stack) == maxNestingDepth
+}
+
 // index returns a reference to the ith entry.
 // It is only valid until the next push method call.
 func (m *stateMachine) index(i int) *stateEntry {
